@@ -353,7 +353,7 @@ func (sc *c15Scenario) exec(obs *c15Obs) {
 	case 1:
 		cancel()
 	case 2:
-		time.AfterFunc(time.Duration(sc.CancelMs)*time.Millisecond+500*time.Microsecond, cancel)
+		time.AfterFunc(time.Duration(sc.CancelMs)*time.Millisecond+cancelOffset, cancel)
 	}
 	env, err := signature.NewEnvelope(mediaType(sc.Format))
 	if err != nil {
